@@ -564,7 +564,7 @@ def _(c, cls):
 
 @sem("sctp", "SACK", "cum_unsent")
 def _(c, cls):
-    return [c.pkt(c_sack(c.vnext + k)) for k in (0, 1, 5)]
+    return [c.pkt(c_sack(c.vnext + k)) for k in (5, 1, 0)]
 
 
 @sem("sctp", "SACK", "cum_far_behind")
@@ -844,7 +844,8 @@ def sctp_mutants(c, kind, mut, full, r):
             out.append(refit(good[:p]))
     elif mut == "body_short":
         bounds = set(range(len(body))) if full else ({0, 1, 2, 3, 4, 6, 8, 11, 12, 13, 15, 16, 17, 19} | {len(body) - 1, len(body) - 2, len(body) - 3})
-        for n in sorted(b for b in bounds if 0 <= b < len(body)):
+        first = 8 if t == 130 else 1       # a cut the unrepaired constructors / parameter parsers trip over comes first
+        for n in sorted((b for b in bounds if 0 <= b < len(body)), key=lambda x: (x != first, x)):
             out.append(packet(tag0, [chunk(t, fl, body[:n])]))
             if full or n in (0, 3, 11):
                 out.append(packet(tag0, [chunk(t, fl, body[:n]), c_sack(c.vacked)]))
@@ -1015,6 +1016,7 @@ def sctp_case(case, full, guard):
             facts = sctp_facts(data, c.vtag, c.probe_streams())
             env = c.env
             before = c.assoc()
+            lastrx0 = c.V._last_received_tsn
             env.begin_step()
             res = guard.call(lambda: env.loop.run(c.V._handle_data(data)), budget(len(data)))
             try:
@@ -1043,8 +1045,9 @@ def sctp_case(case, full, guard):
                 # the real peer did not send the hostile datagram: make it consistent with what "it" sent
                 if facts["accepted"] and c.V._last_received_tsn is not None:
                     P = c.P
-                    if facts["fwd"] is not None and serial_gt(facts["fwd"], (P._local_tsn - 1) & M32):
-                        P._local_tsn = (facts["fwd"] + 1) & M32
+                    if facts["fwd"] is not None and c.V._last_received_tsn != lastrx0:
+                        # the victim took the FORWARD-TSN: a peer that sent it continues behind it
+                        P._local_tsn = (c.V._last_received_tsn + 1) & M32
                     near = [x for x in facts["tsns"] if ((x - P._local_tsn) & M32) < 256]
                     if near:
                         # TSNs the hostile sender used: the peer continues behind them; holes are filled
@@ -1094,6 +1097,24 @@ class StubSrtp:
 
     protect = unprotect
     protect_rtcp = unprotect
+
+
+class StubSsl:
+    """No DTLS session: every record fails to decrypt (datagrams whose first byte is in the DTLS range)."""
+
+    def bio_write(self, data):
+        pass
+
+    def recv(self, n):
+        from OpenSSL import SSL
+        raise SSL.Error()
+
+    def bio_read(self, n):
+        from OpenSSL import SSL
+        raise SSL.Error()
+
+    def DTLSv1_get_timeout(self):
+        return None
 
 
 class MediaIce:
@@ -1192,6 +1213,7 @@ class MediaEnv:
         dtls.encrypted = True
         dtls._rx_srtp = StubSrtp()
         dtls._tx_srtp = StubSrtp()
+        dtls._ssl = StubSsl()
         dtls._set_state(D.State.CONNECTED)
         run = getattr(dtls, "_RTCDtlsTransport__run", None)
         if run is None:
@@ -2191,7 +2213,7 @@ def run():
         if not traces:
             raise T.MachineryError("no executions recorded")
 
-        verdicts, vstates = judge([slim(t) for t in traces], 6 if thorough else 3, 1500)
+        verdicts, vstates = judge([slim(t) for t in traces], 6 if thorough else 5, 1500)
         # binding self-test: corrupted copies of recorded traces must be rejected with the expected clause
         okp = next((t for t in traces if t["case"]["sub"] != "parser" and len(t["steps"]) == 2 and verdicts[t["id"]][0] == "ok"
                     and not t["steps"][0]["ctl"]), None)
